@@ -267,7 +267,7 @@ func ruleC14R1(r *Run, only map[string]bool) {
 		if !G[fa.Field] {
 			continue
 		}
-		name := p.fnName(fa.Fn)
+		name := p.hostName(fa.Fn)
 		construct := name + "#" + fa.Field + "." + fa.Kind
 		if fa.FA != nil && name == "newT" {
 			// the freshly allocated T is not yet published
@@ -319,7 +319,7 @@ func ruleC14R2(r *Run) {
 		if !imm[fa.Field] || fa.Kind == "read" {
 			continue
 		}
-		name := p.fnName(fa.Fn)
+		name := p.hostName(fa.Fn)
 		if fa.Kind == "nested" {
 			continue
 		}
@@ -345,7 +345,7 @@ func ruleC14R3(r *Run) {
 		}
 		n++
 		ok := strings.HasPrefix(fa.Kind, "call:(*sync/atomic.Bool).")
-		r.Check(p.fnName(fa.Fn)+"#cleaning", fa.Instr.Pos(), ok, "cleaning accessed through "+strings.TrimPrefix(fa.Kind, "call:"), "T.cleaning is accessed by "+fa.Kind+" instead of an atomic.Bool method")
+		r.Check(p.hostName(fa.Fn)+"#cleaning", fa.Instr.Pos(), ok, "cleaning accessed through "+strings.TrimPrefix(fa.Kind, "call:"), "T.cleaning is accessed by "+fa.Kind+" instead of an atomic.Bool method")
 	}
 	r.Floor("accesses to T.cleaning", n, 3)
 	// type is atomic.Bool
@@ -392,7 +392,7 @@ func ruleC14R4(r *Run) {
 			continue
 		}
 		if !allowedField[fa.Field] {
-			r.Fail(p.fnName(fa.Fn)+"#"+fa.Field, fa.Instr.Pos(), "goroutine-safe method closure touches T."+fa.Field+", which is not lock-protected, immutable or atomic")
+			r.Fail(p.hostName(fa.Fn)+"#"+fa.Field, fa.Instr.Pos(), "goroutine-safe method closure touches T."+fa.Field+", which is not lock-protected, immutable or atomic")
 		}
 	}
 	for _, fn := range fns {
@@ -428,7 +428,7 @@ func ruleC14R5(r *Run) {
 		ls := p.lockSets(fn)
 		var st *ssa.Store
 		for _, fa := range p.fieldAccesses("T") {
-			if fa.Fn == fn && fa.Field == "cleanups" && fa.Kind == "write" {
+			if p.within(fa.Fn, fn) && fa.Field == "cleanups" && fa.Kind == "write" {
 				st = fa.Instr.(*ssa.Store)
 			}
 		}
@@ -454,7 +454,7 @@ func ruleC14R5(r *Run) {
 	lsCache := map[*ssa.Function]map[ssa.Instruction]lockState{}
 	nRMW := 0
 	for _, fa := range p.fieldAccesses("T") {
-		if !G[fa.Field] || fa.Kind != "write" || p.fnName(fa.Fn) == "newT" {
+		if !G[fa.Field] || fa.Kind != "write" || p.hostName(fa.Fn) == "newT" {
 			continue
 		}
 		st := fa.Instr.(*ssa.Store)
@@ -520,8 +520,8 @@ func ruleC14R5(r *Run) {
 		for _, ld := range deps {
 			nRMW++
 			ok := ls[ld][lock] == 'W' && ls[st][lock] == 'W' && noUnlockBetween(p, ld, st)
-			r.Check(p.fnName(fa.Fn)+"#rmw."+fa.Field, st.Pos(), ok, "the value stored to "+fa.Field+" depends on "+p.expr(ld)+" read inside the same write-locked region",
-				"read-modify-write of T."+fa.Field+" in "+p.fnName(fa.Fn)+" is not atomic: the stored value depends on "+p.expr(ld)+" read at "+p.pos(ld.Pos())+" outside the critical section of the store (a concurrent Cleanup/Context call in between is lost)")
+			r.Check(p.hostName(fa.Fn)+"#rmw."+fa.Field, st.Pos(), ok, "the value stored to "+fa.Field+" depends on "+p.expr(ld)+" read inside the same write-locked region",
+				"read-modify-write of T."+fa.Field+" in "+p.hostName(fa.Fn)+" is not atomic: the stored value depends on "+p.expr(ld)+" read at "+p.pos(ld.Pos())+" outside the critical section of the store (a concurrent Cleanup/Context call in between is lost)")
 		}
 	}
 	r.Floor("read-modify-write dependencies on guarded T fields", nRMW, 2)
@@ -530,7 +530,7 @@ func ruleC14R5(r *Run) {
 		ls := p.lockSets(fn)
 		n := 0
 		for _, fa := range p.fieldAccesses("T") {
-			if fa.Fn != fn || fa.Field != "ctx" || fa.Kind != "write" {
+			if !p.within(fa.Fn, fn) || fa.Field != "ctx" || fa.Kind != "write" {
 				continue
 			}
 			n++
@@ -558,7 +558,7 @@ func ruleC14R5(r *Run) {
 		r.Floor("stores to t.ctx in Context", n, 1)
 		// ctx and cancelCtx stored in the same region
 		for _, fa := range p.fieldAccesses("T") {
-			if fa.Fn == fn && fa.Field == "cancelCtx" && fa.Kind == "write" {
+			if p.within(fa.Fn, fn) && fa.Field == "cancelCtx" && fa.Kind == "write" {
 				r.Check("(*T).Context#store-cancel", fa.Instr.Pos(), ls[fa.Instr]["&$t.mu"] == 'W', "cancel function stored under the write lock", "cancel function stored without the write lock")
 			}
 		}
